@@ -342,6 +342,7 @@ func (e *Engine) globalObj(gl *ssa.Global) *Obj {
 	save := e.epoch
 	e.epoch = 0 // globals belong to the init epoch (journaled when written on a path)
 	o := e.newObj(pt.Elem())
+	o.global = true
 	e.epoch = save
 	e.globals[gl] = o
 	return o
@@ -413,6 +414,12 @@ func (e *Engine) step(g *G, fr *Frame) (yield bool) {
 	case *ssa.UnOp:
 		if in.Op == token.ARROW {
 			return e.doRecv(g, fr, in)
+		}
+		if in.Op == token.MUL && e.opts.GlobalYield && len(e.gs) > 1 {
+			// option globalyield: a read of a package-level variable is a scheduling point
+			if p, ok := e.get(fr, in.X).(Ptr); ok && p.obj != nil && p.obj.global && e.schedPoint(g) {
+				return true
+			}
 		}
 		fr.env[in] = e.unop(in, e.get(fr, in.X))
 	case *ssa.BinOp:
@@ -505,6 +512,9 @@ func (e *Engine) step(g *G, fr *Frame) (yield bool) {
 		fr.env[in] = e.slice(fr, in)
 	case *ssa.Store:
 		p := e.get(fr, in.Addr).(Ptr)
+		if e.opts.GlobalYield && len(e.gs) > 1 && p.obj != nil && p.obj.global && e.schedPoint(g) {
+			return true // option globalyield: a write of a package-level variable is a scheduling point
+		}
 		e.store(p, in.Val.Type(), e.get(fr, in.Val))
 	case *ssa.TypeAssert:
 		e.typeAssert(fr, in)
